@@ -769,8 +769,9 @@ class InClass:
                 finally:
                     if pushed:
                         pop()
-                if index == 0:
-                    pkw['sequence-start'] = 0
+                # an element has been displayed (with skip_unauthorized it
+                # need not be the one at index 0)
+                pkw['sequence-start'] = 0
 
             result = join_unicode(result, encoding=self.encoding)
 
